@@ -65,6 +65,12 @@ static int no_children (const void *v) {
 	return (nsync_dll_is_empty_ (((nsync_note)v)->children));
 }
 
+/* Return whether n->children is empty, or has had children added to it by
+   nsync_note_free() since n->adopted was last reset.  Assumes n->note_mu held. */
+static int no_children_or_adopted (const void *v) {
+	return (nsync_dll_is_empty_ (((nsync_note)v)->children) || ((nsync_note)v)->adopted != 0);
+}
+
 #define WAIT_FOR_NO_CHILDREN(pred_, n_) nsync_mu_wait (&(n_)->note_mu, &pred_, (n_), NULL)
 #define WAKEUP_NO_CHILDREN(n_) do { } while (0)
 
@@ -93,16 +99,21 @@ static void note_notify_child (nsync_note n, nsync_note parent) {
 			ATM_STORE_REL (&nw->waiting, 0);
 			nsync_mu_semaphore_v (nw->sem);
 		}
-		for (p = nsync_dll_first_ (n->children); p != NULL; p = next) {
-			nsync_note child = DLL_NOTE (p);
-			next = nsync_dll_next_ (n->children, p);
-			nsync_mu_lock (&child->note_mu);
-			if (child->disconnecting == 0) {
-				note_notify_child (child, n);
+		/* Repeat if a concurrent nsync_note_free() of a child hands
+		   its children to *n after they could be seen by the scan. */
+		do {
+			n->adopted = 0;
+			for (p = nsync_dll_first_ (n->children); p != NULL; p = next) {
+				nsync_note child = DLL_NOTE (p);
+				next = nsync_dll_next_ (n->children, p);
+				nsync_mu_lock (&child->note_mu);
+				if (child->disconnecting == 0) {
+					note_notify_child (child, n);
+				}
+				nsync_mu_unlock (&child->note_mu);
 			}
-			nsync_mu_unlock (&child->note_mu);
-		}
-		WAIT_FOR_NO_CHILDREN (no_children, n);
+			WAIT_FOR_NO_CHILDREN (no_children_or_adopted, n);
+		} while (!nsync_dll_is_empty_ (n->children));
 		if (parent != NULL) {
 			parent->children = nsync_dll_remove_ (parent->children,
 						              &n->parent_child_link);
@@ -216,24 +227,30 @@ void nsync_note_free (nsync_note n) {
 		nsync_mu_lock (&parent->note_mu);
 		nsync_mu_lock (&n->note_mu);
 	}
-	for (p = nsync_dll_first_ (n->children); p != NULL; p = next) {
-		nsync_note child = DLL_NOTE (p);
-		next = nsync_dll_next_ (n->children, p);
-		nsync_mu_lock (&child->note_mu);
-		if (child->disconnecting == 0) {
-			n->children = nsync_dll_remove_ (n->children,
-							 &child->parent_child_link);
-			if (parent != NULL) {
-				child->parent = parent;
-				parent->children = nsync_dll_make_last_in_list_ (
-					parent->children, &child->parent_child_link);
-			} else {
-				child->parent = NULL;
+	/* Repeat if a concurrent nsync_note_free() of a child hands its
+	   children to *n after they could be seen by the scan. */
+	do {
+		n->adopted = 0;
+		for (p = nsync_dll_first_ (n->children); p != NULL; p = next) {
+			nsync_note child = DLL_NOTE (p);
+			next = nsync_dll_next_ (n->children, p);
+			nsync_mu_lock (&child->note_mu);
+			if (child->disconnecting == 0) {
+				n->children = nsync_dll_remove_ (n->children,
+								 &child->parent_child_link);
+				if (parent != NULL) {
+					child->parent = parent;
+					parent->children = nsync_dll_make_last_in_list_ (
+						parent->children, &child->parent_child_link);
+					parent->adopted = 1;
+				} else {
+					child->parent = NULL;
+				}
 			}
+			nsync_mu_unlock (&child->note_mu);
 		}
-		nsync_mu_unlock (&child->note_mu);
-	}
-	WAIT_FOR_NO_CHILDREN (no_children, n);
+		WAIT_FOR_NO_CHILDREN (no_children_or_adopted, n);
+	} while (!nsync_dll_is_empty_ (n->children));
 	if (parent != NULL) {
 		parent->children = nsync_dll_remove_ (parent->children,
 						      &n->parent_child_link);
